@@ -4,8 +4,8 @@
    - [sem_eq] is the evident boolean equality (numbers by value, lists element-wise, maps key-wise),
    - [cmp_ok] says that every pair of corresponding components can be compared at all,
    - every operator gets a predicate "this outcome is acceptable" (an outcome is true/false/error).
-   Where the order in which a map is visited could matter (an entry that differs AND an entry that
-   cannot be compared), the specification accepts either answer; the symmetry law is checked on top. *)
+   Where a component that differs and a component that cannot be compared meet, the specification
+   accepts false or an error; the symmetry law (same outcome both ways) is checked on top. *)
 From P2 Require Import Base.Prelude Sem.Num Sem.Syntax Sem.Ops.
 Local Open Scope Z_scope.
 
@@ -338,16 +338,6 @@ Fixpoint clean_val (v : value) : bool :=
   | VFloat FNaN => false
   | VClo _ _ _ _ => false
   | VErrText _ => false
-  | _ => true
-  end.
-
-(* every map inside has at most one entry (in particular: values without maps) *)
-Fixpoint narrow_maps (v : value) : bool :=
-  match v with
-  | VList l => (fix go (l : list value) : bool := match l with [] => true | x :: r => narrow_maps x && go r end) l
-  | VMap m => Nat.leb (length m) 1 &&
-              (fix go (m : list (str * value)) : bool :=
-                 match m with [] => true | (_, x) :: r => narrow_maps x && go r end) m
   | _ => true
   end.
 
